@@ -34,6 +34,17 @@ Theorem C03_finishes_within_ceil_L_over_R : forall c items s o s',
     lo (s_rt s1) = None /\ N.of_nat (length items1) = N.max 1 (cdiv (ocnt o) (cR c)).
 Proof. exact T_C03_finishes. Qed.
 
+(* The insertion performed through a vacant entry / raw-entry handle ([vac_insert], the model of
+   RawTable::insert_entry; every inserting step of [entry_step] goes through it) makes the same
+   progress as an insert of a new key: min(R, L) elements leave the old table, which is released
+   exactly when none is left. *)
+Theorem C03_entry_insert_step : forall c k kid v s u s',
+  Inv (cR c) (cesz c) (s_rt s) -> rt_abs (s_rt s) !! k = None ->
+  vac_insert c k kid v s = Ok u s' ->
+  progress c (s_rt s) true (s_rt s').
+Proof. exact T_C03_entry_insert_step. Qed.
+
 Print Assumptions C03_step.
 Print Assumptions C03_finishes_within_ceil_L_over_R.
 Print Assumptions C03_two_tables.
+Print Assumptions C03_entry_insert_step.
